@@ -416,7 +416,13 @@ def execute(sim, scn):
                 opts.append((rc.NO_RESPONSE, rc.uint_bytes(op["no_response"])))
         elif op["cls"] == "response":
             payload = b"inj%d" % i
-        if op.get("reuse_token") and injected and injected[-1]["op"].get("cls") == "request":
+        # (the flag is only honoured when the message right before really is a finished exchange: sorting the operations
+        # by time, or the minimiser dropping some, can put a slow request in between, and using the token of a request that
+        # is still being handled is the peer's mistake, not something the property speaks about)
+        if (op.get("reuse_token") and injected and injected[-1]["op"].get("cls") == "request"
+                and injected[-1]["op"].get("type") == "CON" and injected[-1]["op"].get("dst") == "uni"
+                and injected[-1]["op"].get("handler") in ("fast", "raise", "missing", "ret4", "ret5")
+                and not injected[-1].get("t_next_same_token")):
             token = injected[-1]["token"]
             injected[-1]["t_next_same_token"] = loop.now + 0.005
             sim.probe("token_reused_after_completed_exchange")
